@@ -1217,3 +1217,22 @@ package tally
 //@   loop 5 invariant @gauges_done forall key string :: key in ss.gauges ==> (kspec1(fqn(ss, key), tags) in snap.gauges) && gEnt(snap.gauges[kspec1(fqn(ss, key), tags)], ss, key, tags)
 //@   loop 5 invariant @timers_done forall key string :: key in ss.timers ==> (kspec1(fqn(ss, key), tags) in snap.timers) && tEnt(snap.timers[kspec1(fqn(ss, key), tags)], ss, key, tags)
 //@   loop 5 invariant @histograms_so_far forall key string :: seen(key) ==> (kspec1(fqn(ss, key), tags) in snap.histograms) && hEnt(snap.histograms[kspec1(fqn(ss, key), tags)], ss, key, tags)
+
+//@ func (*scopeRegistry).ForEachScope
+//@   property C11
+//@   emits
+//@   requires regWF0(r) && f != nil
+//@   ensures @registry_untouched len(r.subscopes) == old(len(r.subscopes))
+//@   ensures @only_the_callback_runs forall p int :: old(len(calls)) <= p && p < len(calls) ==> (exists sc *scope :: sc != nil && calls[p] == evn("fn.call", f, sc))
+//@   loop 1 invariant @idx 0 <= rangeindex + 1 && rangeindex + 1 <= len(r.subscopes) && regWF0(r) && f != nil
+//@   loop 1 invariant @only_the_callback_runs forall p int :: old(len(calls)) <= p && p < len(calls) ==> (exists sc *scope :: sc != nil && calls[p] == evn("fn.call", f, sc))
+//@   loop 2 invariant @idx 0 <= rangeindex && rangeindex < len(r.subscopes) && regWF0(r) && f != nil && subscopeBucket != nil && subscopeBucket.s != nil
+//@   loop 2 invariant @entries forall k string :: k in subscopeBucket.s ==> subscopeBucket.s[k] != nil && scopeWF(subscopeBucket.s[k])
+//@   loop 2 invariant @only_the_callback_runs forall p int :: old(len(calls)) <= p && p < len(calls) ==> (exists sc *scope :: sc != nil && calls[p] == evn("fn.call", f, sc))
+
+//@ func (*scope).Snapshot
+//@   property C11
+//@   emits
+//@   allocs
+//@   requires scopeWF(s) && s.registry != nil && regWF0(s.registry)
+//@   ensures @a_fresh_snapshot_object is(result, *snapshot) && fresh(dyn(result, *snapshot)) && dyn(result, *snapshot).counters != nil && fresh(dyn(result, *snapshot).counters) && dyn(result, *snapshot).gauges != nil && fresh(dyn(result, *snapshot).gauges) && dyn(result, *snapshot).timers != nil && fresh(dyn(result, *snapshot).timers) && dyn(result, *snapshot).histograms != nil && fresh(dyn(result, *snapshot).histograms)
